@@ -75,7 +75,9 @@ func c01Devs() []c01Dev {
 		{"meta-2-frames", tx0(func(t *cargen.TxShape) { t.Meta = cargen.PayloadShape{Pad: 300, FrameSize: 200} })},
 		{"meta-5-frames-fanout2", tx0(func(t *cargen.TxShape) { t.Meta = cargen.PayloadShape{Pad: 900, FrameSize: 200, FanOut: 2} })},
 		{"meta-7-frames-fanout1", tx0(func(t *cargen.TxShape) { t.Meta = cargen.PayloadShape{Pad: 1300, FrameSize: 200, FanOut: 1} })},
-		{"meta-9-frames-fanout4-fnv", tx0(func(t *cargen.TxShape) { t.Meta = cargen.PayloadShape{Pad: 1700, FrameSize: 200, FanOut: 4, Checksum: "fnv"} })},
+		{"meta-9-frames-fanout4-fnv", tx0(func(t *cargen.TxShape) {
+			t.Meta = cargen.PayloadShape{Pad: 1700, FrameSize: 200, FanOut: 4, Checksum: "fnv"}
+		})},
 		{"meta-bare-frame", tx0(func(t *cargen.TxShape) { t.Meta = cargen.PayloadShape{Bare: true} })},
 		{"rewards-one-frame", func(s *cargen.Shape) { s.Blocks[0].Rewards = &cargen.PayloadShape{Pad: 50} }},
 		{"rewards-linked-frames", func(s *cargen.Shape) { s.Blocks[1].Rewards = &cargen.PayloadShape{Pad: 700, FrameSize: 150, FanOut: 2} }},
